@@ -253,10 +253,17 @@ CLAIMED = {
             "the merged list is duplicate-free and ordered by id, shared measurements are routed to both operands, every "
             "operator dunder (both operand orders, scalars either side) denotes pointwise arithmetic on outcomes, concretize == "
             "denotation, items / branches / [i] enumerate all 2^n branches with the documented bit order, postselected_items is "
-            "the consistent sub-enumeration - for ALL outcomes, scalars and processing functions.",
-            "Size-bounded in dependency shapes; uniqueness of measurement ids assumed; qp.math logical / mod helpers are "
-            "uninterpreted (routing checked, not numerics); deferred measurement, tree traversal, one-shot execution and "
-            "postselection modes - the bulk of the property - are NOT covered.",
+            "the consistent sub-enumeration - for ALL outcomes, scalars and processing functions. variance_transform incl. its "
+            "post-processing closure: every measurement-kind sequence of length <= 3 (thorough 4) plus selected longer ones, "
+            "var(O) == <O^2> - <O>^2 and every other value unchanged. _postselection_postprocess: hw-like / default draw exactly "
+            "one Binomial(s_i, <psi|psi>) per shot-vector entry in order, fill-shots draws nothing and raises exactly at P = 0, "
+            "state renormalised (2 or 4 symbolic real components, shot vectors <= 3). defer_measurements: the real transform on 58 "
+            "(thorough 142) circuit shapes with 1-2 mid-circuit measurements covering every reset / postselect combination and "
+            "symbolic angles; the deferred circuit equals an independent branch enumeration exactly (reduced density matrix plus "
+            "measurement-value statistics, Laurent normal form).",
+            "Size-bounded in shapes; uniqueness of measurement ids assumed; qp.math logical / mod helpers are uninterpreted "
+            "(routing checked, not numerics); numpy's binomial sampling itself, the device's execution of the deferred circuit, "
+            "simulate_tree_mcm branching and pruning, one-shot execution, the jax prng path and more than 2 MCMs are NOT covered.",
             "DESIGN.md 4 C21", "E1"),
     "C22": ("proof",
             "sidecar contracts on transforms/resolve_dynamic_wires.py (_WireManager.__init__/get_wire/_get_zeroed/_get_any/"
@@ -547,9 +554,14 @@ CLAIMED = {
             "Groups are a partition of the indices (each exactly once, order kept), members of a group are pairwise related "
             "(qwc / commuting / anticommuting), custom indices travel by position, coefficients travel with their observable, "
             "wire-less observables are handled per grouping type (F27) - for <= 4 observables (5 thorough) and all symbolic "
-            "colourings; adjacency exact for <= 3 qubits.",
+            "colourings; adjacency exact for <= 3 qubits. diagonalize_pauli_word / diagonalize_qwc_pauli_words / "
+            "diagonalize_qwc_groupings: for every word on <= 3 wires (explicit Identity factors, cancelling factors, scalar "
+            "multiples) D has Z exactly on the non-identity wires with the same coefficient and U P U^dagger == D exactly "
+            "(cyclotomic arithmetic) for the returned gates; one gate set diagonalises every member of a qwc pair, non-qwc pairs "
+            "raise ValueError (all pairs on 2 wires).",
             "Size-bounded (level other); graph colouring assumed (confirmed on all graphs with <= 4 nodes, bounded); "
-            "recursive_largest_first, binary conversions and diagonalize_qwc_* are not covered. F27 fixed in repo.",
+            "recursive_largest_first, binary conversions, groups of more than 2 words or more than 3 wires in the "
+            "diagonalisation are not covered. F27 and F41 fixed in repo.",
             "DESIGN.md 4 C52", "E1+E2b"),
     "C18": ("other",
             "E3 frame checking: a flow-sensitive may-alias analysis of the real transform ASTs (68 transforms enumerated "
@@ -677,6 +689,27 @@ CLAIMED = {
             "sorted(edge_list()) assumed; reward lists without duplicates; cycle.py (max_weight_cycle, loss_hamiltonian, "
             "cycle_mixer, flow constraints), xy_mixer / bit_flip_mixer and maxcut / max_clique on rustworkx are bounded "
             "or not covered.",
+            "DESIGN.md 7", "E1"),
+    "C06": ("other",
+            "E1 deductive verification of the real __copy__ / __deepcopy__ / _flatten / _unflatten bodies (Operator, "
+            "Operator2, CompositeOp, SymbolicOp, Sum, Adjoint, Controlled, Pow, SProd, Exp, MeasurementProcess) and of 14 "
+            "bind_new_parameters overloads on records with object identity: constructor calls observed, stdlib copy / "
+            "deepcopy modelled on abstract values with identity and memo, loop invariant plus a partition lemma for the "
+            "composite parameter slicing (any number of operands), the recursive bind call through a modular contract; "
+            "every case paired with a native replay scenario; bounded native round trips (copy / deepcopy / pickle / "
+            "pytree / rebind) on 58 real operators and 1500 pytree nestings",
+            "Copies are fresh objects with the stated sharing (memo registered and passed on, a twice-referenced object "
+            "copied once, original deeply untouched); _unflatten(*_flatten(op)) reproduces data, wires, hyperparameters "
+            "and operand order; rebinding yields exactly the new parameters in order with every other attribute unchanged "
+            "and the input untouched - proved on the model for symbolic-length parameters (composites: any operand count; "
+            "otherwise 1-3 operands, data tuples of 0/1/3 parameters: size-bounded). Constructors, pickle and the pytrees "
+            "recursion are bounded-native only (never counted as proved). Open known findings F42 (legacy Pow round trip "
+            "changes class), F43 (Conditional cannot be unflattened), F44 (bind_new_parameters on "
+            "ControlledQubitUnitary).",
+            "Trusts the pyvc encoder, z3; copy.copy / copy.deepcopy models; constructors reproducing an operator from "
+            "their own arguments are checked natively only; Operator2._flatten/_unflatten, the singledispatch base and "
+            "the remaining overloads (LinearCombination, parametric controlled ops, projector, QSVT, Select, ...), JAX "
+            "registration and the capture path are not covered.",
             "DESIGN.md 7", "E1"),
     "C61": ("proof",
             "contract on step/step_and_cost/apply_grad/compute_grad of the six gradient optimizers: outputs == documented "
